@@ -178,15 +178,18 @@ def scc_progress(f, scc, advancing, spec, depth=0):
 
 def _is_increment(f, rv, var):
     """rv is `var + positive constant` (through the AddWithOverflow tuple's .0)"""
-    if rv["k"] != "use":
-        return False
-    p = op_place(rv["op"])
-    if p is None:
-        return False
-    v = f.value_of_local(p["local"])
-    if v.get("k") != "rv" or v["rv"]["k"] != "binop":
-        return False
-    b = v["rv"]
+    if rv["k"] == "binop":            # overflow checks off: `var = var + c` directly
+        b = rv
+    else:
+        if rv["k"] != "use":
+            return False
+        p = op_place(rv["op"])
+        if p is None:
+            return False
+        v = f.value_of_local(p["local"])
+        if v.get("k") != "rv" or v["rv"]["k"] != "binop":
+            return False
+        b = v["rv"]
     if b["op"] not in ("Add", "AddWithOverflow", "AddUnchecked"):
         return False
     ld, rd = f.describe(b["l"]), f.describe(b["r"])
